@@ -21,6 +21,9 @@ type obsText struct {
 	Text   string
 	Seq    int // value of the line/block boundary counter when the box was met
 	X, Y   float64
+	// FloatLetter: the text of a floated ::first-letter: "similar to a floated element" (CSS 2.1
+	// §5.12.2), it is placed like a float, away from the rest of its word
+	FloatLetter bool
 }
 
 func elemID(n *html.Node) string {
@@ -48,7 +51,7 @@ func collectTexts(pages []*bo.PageBox) []obsText {
 			pseudo = bf.PseudoType
 		}
 		if tb, ok := b.(*bo.TextBox); ok {
-			out = append(out, obsText{Page: page, Elem: elemID(tb.Element), Pseudo: pseudo, Text: tb.TextS(), Seq: seq, X: float64(tb.PositionX), Y: float64(tb.PositionY)})
+			out = append(out, obsText{Page: page, Elem: elemID(tb.Element), Pseudo: pseudo, Text: tb.TextS(), Seq: seq, X: float64(tb.PositionX), Y: float64(tb.PositionY), FloatLetter: frozen > 0})
 			return
 		}
 		_, inline := b.(*bo.InlineBox)
@@ -57,7 +60,7 @@ func collectTexts(pages []*bo.PageBox) []obsText {
 		// or, for a floated ::first-letter, to the word that follows)
 		saved, oof := seq, b.Box().Style != nil && !b.Box().IsInNormalFlow()
 		if oof && pseudo == "first-letter" {
-			// the floated first letter and the rest of its word are one word
+			// the boxes of a floated first letter are no line boundaries of the flow
 			frozen++
 			defer func() { frozen-- }()
 		}
@@ -88,12 +91,15 @@ func collectTexts(pages []*bo.PageBox) []obsText {
 type flowObs struct {
 	perPage map[int]string
 	pages   []int
+	// floated first letters of the flow, per page (they are floats: their place among the
+	// words of the flow is not asserted)
+	floated map[int]string
 }
 
 func groupFlows(texts []obsText, fm *flowMap) (map[string]*flowObs, []obsText) {
 	type acc struct {
-		sb      strings.Builder
-		lastSeq int
+		sb, floated strings.Builder
+		lastSeq     int
 	}
 	accs := map[[2]interface{}]*acc{}
 	obs := map[string]*flowObs{}
@@ -103,9 +109,6 @@ func groupFlows(texts []obsText, fm *flowMap) (map[string]*flowObs, []obsText) {
 		switch t.Pseudo {
 		case "", "first-letter", "first-line": // text of the element
 		case "before", "after": // generated text of the element: part of its flow
-			if fm.pagesBefore[t.Elem] && t.Pseudo == "before" {
-				t.Text = digitRuns.ReplaceAllString(t.Text, pagesMark)
-			}
 		default:
 			continue // list markers, footnote calls and markers: counters, no document text
 		}
@@ -123,6 +126,10 @@ func groupFlows(texts []obsText, fm *flowMap) (map[string]*flowObs, []obsText) {
 			accs[k] = a
 			keys = append(keys, k)
 		}
+		if t.FloatLetter {
+			a.floated.WriteString(t.Text)
+			continue
+		}
 		if a.lastSeq != t.Seq {
 			a.sb.WriteByte(' ')
 			a.lastSeq = t.Seq
@@ -133,16 +140,34 @@ func groupFlows(texts []obsText, fm *flowMap) (map[string]*flowObs, []obsText) {
 		key, page := k[0].(string), k[1].(int)
 		o := obs[key]
 		if o == nil {
-			o = &flowObs{perPage: map[int]string{}}
+			o = &flowObs{perPage: map[int]string{}, floated: map[int]string{}}
 			obs[key] = o
 		}
-		o.perPage[page] = strings.Join(strings.Fields(accs[k].sb.String()), " ")
+		txt, fl := accs[k].sb.String(), accs[k].floated.String()
+		if strings.Contains(fm.flows[key].Want, pagesMark) {
+			// the value of counter(pages): any number
+			txt, fl = digitRuns.ReplaceAllString(txt, pagesMark), digitRuns.ReplaceAllString(fl, pagesMark)
+		}
+		o.floated[page] = letters(fl)
+		o.perPage[page] = strings.Join(strings.Fields(txt), " ")
 		o.pages = append(o.pages, page)
 	}
 	for _, o := range obs {
 		sort.Ints(o.pages)
 	}
 	return obs, strangers
+}
+
+// allFloated joins the floated first letters in page order.
+func (o *flowObs) allFloated() string {
+	if o == nil {
+		return ""
+	}
+	var sb strings.Builder
+	for _, p := range o.pages {
+		sb.WriteString(o.floated[p])
+	}
+	return sb.String()
 }
 
 // all joins the per-page texts in page order.
